@@ -1,4 +1,4 @@
-import ParsecVerif.Proofs.Reshape
+import ParsecVerif.Proofs.ReshapeAns
 import ParsecVerif.Props.C29
 /-!
 # C18 — typed PTG flows deliver correctly converted copies
@@ -141,14 +141,12 @@ theorem C18_fulfil_once (cfg : Cfg) (env : Env) (b : Nat) (pre : Bool) (progs : 
     ∀ fu ∈ (hrun cfg env b pre progs sched).d.futs, fu.cb ≤ 1 := by
   rw [hrun_d]; intro fu hfu; exact (C29.C29_trigger_once cfg b pre progs sched fu hfu).1
 
-/-- contents of the copy named by a completed promise -/
-theorem lookup_completed (cfg : Cfg) (env : Env) (b : Nat) (pre : Bool) (progs : List (List DOp)) (sched : List Nat)
-    (fu : Fut) (hfu : fu ∈ (hrun cfg env b pre progs sched).d.futs) (hc : fu.compl = true) :
-    lookup (hrun cfg env b pre progs sched).heap fu.data =
-      some (if pre = true ∧ fu.shape = b then env.tile else copyFor env fu.shape) := by
+/-- contents of the copy whose handle is the value of a promise of shape `sh` -/
+theorem lookup_key (cfg : Cfg) (env : Env) (b : Nat) (pre : Bool) (progs : List (List DOp)) (sched : List Nat)
+    (v sh : Nat) (hv : v = valOf 1 sh) (hkey : hasKey (hrun cfg env b pre progs sched).heap v = true) :
+    lookup (hrun cfg env b pre progs sched).heap v = some (if pre = true ∧ sh = b then env.tile else copyFor env sh) := by
   have hI := hinv_run cfg env b pre progs sched
-  have hdata : fu.data = valOf 1 fu.shape := (hI.d.futs fu hfu).2 hc
-  obtain ⟨e, he, hk, hl⟩ := lookup_of_hasKey _ _ (hI.compl fu hfu hc)
+  obtain ⟨e, he, hk, hl⟩ := lookup_of_hasKey _ _ hkey
   rw [hl]
   have h0 := heap_head cfg env b pre progs sched
   have hkeys := hI.keys
@@ -165,35 +163,44 @@ theorem lookup_completed (cfg : Cfg) (env : Env) (b : Nat) (pre : Bool) (progs :
       cases pre with
       | true =>
         simp only [if_true] at hk
-        have : b = fu.shape := valOf_inj _ _ (by rw [hk, hdata])
+        have : b = sh := valOf_inj _ _ (by rw [hk, hv])
         simp [this]
       | false =>
         simp only [Bool.false_eq_true, if_false] at hk
-        rw [hdata] at hk; unfold valOf at hk; omega
-    · obtain ⟨sh, hsh⟩ := htail e (by simpa using het)
-      have hshape : sh = fu.shape := valOf_inj _ _ (by rw [← hdata, ← hk, hsh])
-      have hne : ¬ (pre = true ∧ fu.shape = b) := by
+        rw [hv] at hk; unfold valOf at hk; omega
+    · obtain ⟨sh', hsh⟩ := htail e (by simpa using het)
+      have hshape : sh' = sh := valOf_inj _ _ (by rw [← hv, ← hk, hsh])
+      have hne : ¬ (pre = true ∧ sh = b) := by
         rintro ⟨hp, hb⟩
         apply hkeys.1
         rw [he0, hp]
         simp only [if_true]
         refine List.mem_map.2 ⟨e, het, ?_⟩
-        rw [hk, hdata, hb]
+        rw [hk, hv, hb]
       rw [if_neg hne, hsh, hshape]
+
+/-- contents of the copy named by a completed promise -/
+theorem lookup_completed (cfg : Cfg) (env : Env) (b : Nat) (pre : Bool) (progs : List (List DOp)) (sched : List Nat)
+    (fu : Fut) (hfu : fu ∈ (hrun cfg env b pre progs sched).d.futs) (hc : fu.compl = true) :
+    lookup (hrun cfg env b pre progs sched).heap fu.data =
+      some (if pre = true ∧ fu.shape = b then env.tile else copyFor env fu.shape) := by
+  have hI := hinv_run cfg env b pre progs sched
+  exact lookup_key cfg env b pre progs sched fu.data fu.shape ((hI.d.futs fu hfu).2 hc) (hI.compl fu hfu hc)
 
 /-- **C18, sharing.**  For every match function, synchronous / deferred fulfilment, programs and schedule: any two
     consumers whose requests fall in the same match class and that obtained a copy obtained THE SAME copy (same handle);
-    that handle is the value of the unique promise of the class, and as soon as that promise is completed the heap holds
-    exactly one copy with this handle: the producer's own tile for a fulfilled base promise, otherwise the conversion
-    `unpack ty_dst (pack ty_src tile)` for the promise's shape. -/
+    that handle is the value of the unique promise of the class, and the heap holds exactly one copy with this handle
+    (`C18_one_copy_per_handle`): the producer's own tile for a fulfilled base promise, otherwise the conversion
+    `unpack ty_dst (pack ty_src tile)` for the promise's shape.  (A non-NULL answer is only ever produced from a COMPLETED
+    promise: `ansInv_run`.) -/
 theorem C18_shared (cfg : Cfg) (env : Env) (b : Nat) (pre : Bool) (progs : List (List DOp)) (sched : List Nat) :
     ∀ th1 ∈ (hrun cfg env b pre progs sched).d.thr, ∀ th2 ∈ (hrun cfg env b pre progs sched).d.thr, ∀ r1 v1 r2 v2,
       (DOp.trig r1, v1) ∈ th1.res → (DOp.trig r2, v2) ∈ th2.res → v1 ≠ 0 → v2 ≠ 0 →
       C29.reqClass cfg (hrun cfg env b pre progs sched).d r1 = C29.reqClass cfg (hrun cfg env b pre progs sched).d r2 →
       v1 = v2 ∧ ∃ (f : Nat) (fu : Fut), (hrun cfg env b pre progs sched).d.futs[f]? = some fu ∧ v1 = valOf 1 fu.shape ∧
         cfg.cls fu.shape = C29.reqClass cfg (hrun cfg env b pre progs sched).d r1 ∧
-        (fu.compl = true → lookup (hrun cfg env b pre progs sched).heap v1 =
-          some (if pre = true ∧ fu.shape = b then env.tile else copyFor env fu.shape)) := by
+        lookup (hrun cfg env b pre progs sched).heap v1 =
+          some (if pre = true ∧ fu.shape = b then env.tile else copyFor env fu.shape) := by
   intro th1 h1 th2 h2 r1 v1 r2 v2 hm1 hm2 hv1 hv2 hcl
   have hd := hrun_d cfg env b pre progs sched
   refine ⟨?_, ?_⟩
@@ -203,11 +210,11 @@ theorem C18_shared (cfg : Cfg) (env : Env) (b : Nat) (pre : Bool) (progs : List 
     rcases hv with h0 | ⟨f, fu, hf, hval, hc, _⟩
     · exact absurd h0 hv1
     · refine ⟨f, fu, by rw [hd]; exact hf, hval, by rw [hd]; exact hc, ?_⟩
-      intro hcomp
-      have hfu : fu ∈ (hrun cfg env b pre progs sched).d.futs := by rw [hd]; exact List.mem_of_getElem? hf
-      have := lookup_completed cfg env b pre progs sched fu hfu hcomp
-      have hdata : fu.data = valOf 1 fu.shape := ((hinv_run cfg env b pre progs sched).d.futs fu hfu).2 hcomp
-      rw [hval, ← hdata]; exact this
+      have hkey : hasKey (hrun cfg env b pre progs sched).heap v1 = true := by
+        rcases ((ansInv_run cfg env b pre progs sched) th1 h1).1 r1 v1 hm1 with h0 | hk
+        · exact absurd h0 hv1
+        · exact hk
+      exact lookup_key cfg env b pre progs sched v1 fu.shape hval hkey
 
 /-! ## Non-vacuity and the finding -/
 
